@@ -62,6 +62,35 @@ func (p *Parser) ExtractImports(file *ast.File) map[string]string {
 	return imports
 }
 
+// ExtractImportsWithInfo is like ExtractImports, but takes the name of an
+// unaliased import from the type checker (the name the imported package
+// declares) instead of guessing it from the last element of the import path.
+func (p *Parser) ExtractImportsWithInfo(file *ast.File, info *types.Info) map[string]string {
+	imports := p.ExtractImports(file)
+	if info == nil {
+		return imports
+	}
+	for _, imp := range file.Imports {
+		if imp.Name != nil {
+			continue
+		}
+		pkgName := info.PkgNameOf(imp)
+		if pkgName == nil {
+			continue
+		}
+		path := strings.Trim(imp.Path.Value, "\"")
+		guessed := lastPathElement(path)
+		if pkgName.Name() == guessed {
+			continue
+		}
+		if imports[guessed] == path {
+			delete(imports, guessed)
+		}
+		imports[pkgName.Name()] = path
+	}
+	return imports
+}
+
 // ExtractPatterns extracts wire patterns from the file.
 func (p *Parser) ExtractPatterns(file *ast.File, info *types.Info, wireAlias string, filePath string) ([]WirePattern, []Warning) {
 	var patterns []WirePattern
